@@ -19,6 +19,9 @@ def main():
             from . import c_parser
             from . import c_parser_extra
             rc = c_parser.run(prop, a.tier, seed, c_parser_extra.drivers(prop))
+        elif prop in ("C05", "C09", "C17"):
+            from . import c_ms_reader
+            rc = c_ms_reader.run(prop, a.tier, seed)
         else:
             print("MACHINERY-FAILURE unknown property %s" % prop)
             rc = 2
